@@ -46,6 +46,18 @@ def enumerate_states(tier, seed):
         states += gs.enumerate_pair(ta, tb, bound)
     meta = {"bound_completed": "deviation bound %d over 9 scene coordinates for all 100 ordered type pairs" % bound,
             "exhaustive": True}
+    # clipping family: large shapes far apart along the coordinate axes (the early-out for far-away colliders
+    # depends on the sign and size of the first support point along the initial search direction (1,0,0))
+    axes = [i for i, d in enumerate(sc.DIRS) if np.sum(np.abs(d) > 1e-12) == 1]
+    clip = []
+    for ta, tb in itertools.product(sc.TYPES, sc.TYPES):
+        for sa, sb, pl, u in itertools.product((0, 2), (0, 2), (0, 5, 6, 7), axes):
+            d = {"ta": ta, "tb": tb}
+            d.update({n: 0 for n in gs.COORDS})
+            d.update(sa=sa, sb=sb, pl=pl, u=u)
+            clip.append(d)
+    states += clip
+    meta["bound_completed"] += " + clipping family (large/unit sizes x far placements x 6 axis directions: %d scenes)" % len(clip)
     if tier == "thorough":
         # deviation bound 3 restricted to the reduced alphabets (all triples of non-default factors)
         extra = enumerate_dev3(seed, full=True)
